@@ -1,7 +1,7 @@
 import json
 import vf
 
-HARNESS = dict(pkg_dir="index", run="TestVerifC01$", files=["index/zz_verif_c01_test.go"], n_quick=270, n_thorough=4000)
+HARNESS = dict(pkg_dir="index", run="TestVerifC01$", files=["index/zz_verif_c01_test.go"], n_quick=220, n_thorough=4000)
 RUNNER = dict(imports=["From ZV Require Import Lib.Base Model.SearchCore."], case_type="c01case", shard=200)
 RULE = ("random corpora (1-3 repositories in simple / compound shards, 1-10 documents over a small token alphabet with forced "
         "repeats and overlaps, multi-byte runes, texts crossing the 100-rune sampling boundary, empty and < 3 rune files, skipped "
